@@ -70,23 +70,31 @@ theorem env_hist (s : S) (st : Queue.Step) (he : envStep st = true) : hist (Queu
 structure SInv (v : Svc) : Prop where
   reach : Reachable v.q
   emitted : v.q.emitted = v.done ++ optL v.cur
-  applied : v.applied = (v.done.filter (fun r => !r.objs.isEmpty)).map (·.objs)
+  /-- exactly-once bookkeeping, as long as no Execute error hid a committed batch -/
+  applied : v.lostAcks = 0 → v.applied = (v.done.filter (fun r => !r.objs.isEmpty)).map (·.objs)
+  /-- in any case every processed batch is in the applied list, in order (possibly among duplicates) -/
+  appliedSub : ((v.done.filter (fun r => !r.objs.isEmpty)).map (·.objs)).Sublist v.applied
+  /-- and nothing is applied that is not the statement list of a request the consumer received -/
+  appliedFrom : ∀ a ∈ v.applied, ∃ r ∈ v.q.emitted, a = r.objs
   closedReqs : ∀ i ∈ v.q.closedReqs, i < v.done.length
   curStmts : ∀ r, v.cur = some r → r.objs ≠ []
 
 theorem mk_inv (m : Nat) (b t : Int) : SInv (mk m b t) :=
-  ⟨⟨m, b, t, 0, [], rfl⟩, rfl, rfl, by simp [mk, Queue.mk], by simp [mk]⟩
+  ⟨⟨m, b, t, 0, [], rfl⟩, rfl, fun _ => rfl, by simp [mk], by simp [mk], by simp [mk, Queue.mk], by simp [mk]⟩
 
 /-- `finish` after the consumer has received `r` as the newest request -/
 theorem finish_inv (v : Svc) (r : Req) (hr : Reachable v.q) (he : v.q.emitted = v.done ++ [r])
-    (ha : v.applied = ((v.done ++ [r]).filter (fun r => !r.objs.isEmpty)).map (·.objs))
+    (ha : v.lostAcks = 0 → v.applied = ((v.done ++ [r]).filter (fun r => !r.objs.isEmpty)).map (·.objs))
+    (hsub : (((v.done ++ [r]).filter (fun r => !r.objs.isEmpty)).map (·.objs)).Sublist v.applied)
+    (hfrom : ∀ a ∈ v.applied, ∃ r' ∈ v.q.emitted, a = r'.objs)
     (hc : ∀ i ∈ v.q.closedReqs, i < v.done.length) : SInv (finish v r) := by
   have hget : v.q.emitted[v.done.length]? = some r := by rw [he]; simp
   have hstep : Queue.next v.q (.closeReq v.done.length) =
       { v.q with closedReqs := v.q.closedReqs ++ [v.done.length], closedFlush := v.q.closedFlush ++ r.flushes } := by
     simp [Queue.next, Queue.step, closeReq, hget]
-  refine ⟨hr.next _, ?_, ha, ?_, by simp [finish]⟩
+  refine ⟨hr.next _, ?_, ha, hsub, ?_, ?_, by simp [finish]⟩
   · simp only [finish, hstep, optL, List.append_nil]; exact he
+  · simp only [finish, hstep]; exact hfrom
   · simp only [finish, hstep, List.length_append, List.length_singleton]
     intro i hi
     rcases List.mem_append.1 hi with hi | hi
@@ -94,7 +102,7 @@ theorem finish_inv (v : Svc) (r : Req) (hr : Reachable v.q) (he : v.q.emitted = 
     · simp only [List.mem_singleton] at hi; omega
 
 theorem step_inv (v v' : Svc) (st : Step) (h : SInv v) (hs : step v st = some v') : SInv v' := by
-  obtain ⟨hr, he, ha, hc, hcur⟩ := h
+  obtain ⟨hr, he, ha, hsub, hfrom, hc, hcur⟩ := h
   cases st with
   | queue qs =>
     simp only [step] at hs
@@ -103,7 +111,7 @@ theorem step_inv (v v' : Svc) (st : Step) (h : SInv v) (hs : step v st = some v'
       cases hs
       have hh := env_hist v.q qs henv
       simp only [hist, Prod.mk.injEq] at hh
-      exact ⟨hr.next qs, by rw [hh.1]; exact he, ha, by rw [hh.2.1]; exact hc, hcur⟩
+      exact ⟨hr.next qs, by rw [hh.1]; exact he, ha, hsub, by rw [hh.1]; exact hfrom, by rw [hh.2.1]; exact hc, hcur⟩
     · cases hs
   | take =>
     simp only [step] at hs
@@ -126,15 +134,27 @@ theorem step_inv (v v' : Svc) (st : Step) (h : SInv v) (hs : step v st = some v'
         split at hs
         · rename_i hempty
           cases hs
+          have hfrom' : ∀ a ∈ v.applied, ∃ r' ∈ (Queue.next v.q .consume).emitted, a = r'.objs := by
+            intro a hm
+            obtain ⟨r', hr', e⟩ := hfrom a hm
+            exact ⟨r', by rw [hcons]; exact List.mem_append_left _ hr', e⟩
           apply finish_inv
           · exact hr.next _
           · exact he'
-          · simp only [List.filter_append, List.map_append, ha]
+          · intro h0
+            simp only [List.filter_append, List.map_append, ha h0]
             simp [hempty]
+          · simp only [List.filter_append, List.map_append]
+            simpa [hempty] using hsub
+          · exact hfrom'
           · exact hc'
         · rename_i hne
           cases hs
-          refine ⟨hr.next _, by simp only [he', optL], ha, hc', ?_⟩
+          have hfrom' : ∀ a ∈ v.applied, ∃ r' ∈ (Queue.next v.q .consume).emitted, a = r'.objs := by
+            intro a hm
+            obtain ⟨r', hr', e⟩ := hfrom a hm
+            exact ⟨r', by rw [hcons]; exact List.mem_append_left _ hr', e⟩
+          refine ⟨hr.next _, by simp only [he', optL], ha, hsub, hfrom', hc', ?_⟩
           intro r' hr'
           simp only [Option.some.injEq] at hr'
           subst hr'
@@ -144,7 +164,21 @@ theorem step_inv (v v' : Svc) (st : Step) (h : SInv v) (hs : step v st = some v'
     split at hs
     · cases hs
     · split at hs
-      · cases hs; exact ⟨hr, he, ha, hc, hcur⟩
+      · cases hs; exact ⟨hr, he, ha, hsub, hfrom, hc, hcur⟩
+      · cases hs
+  | execFailCommitted =>
+    simp only [step] at hs
+    split at hs
+    · cases hs
+    · split at hs
+      · rename_i r hcr
+        cases hs
+        refine ⟨hr, he, fun h0 => by simp at h0, hsub.trans (List.sublist_append_left _ _), ?_, hc, hcur⟩
+        intro a hm
+        rcases List.mem_append.1 hm with hm | hm
+        · exact hfrom a hm
+        · simp only [List.mem_singleton] at hm
+          exact ⟨r, by rw [he, hcr]; simp [optL], hm⟩
       · cases hs
   | execOk =>
     simp only [step] at hs
@@ -161,11 +195,20 @@ theorem step_inv (v v' : Svc) (st : Step) (h : SInv v) (hs : step v st = some v'
         apply finish_inv
         · exact hr
         · rw [he, hcr]; rfl
-        · simp only [List.filter_append, List.map_append, ha]
+        · intro h0
+          simp only [List.filter_append, List.map_append, ha h0]
           simp [hne']
+        · simp only [List.filter_append, List.map_append]
+          simp only [hne', Bool.not_false, List.filter_cons_of_pos, List.filter_nil, List.map_cons, List.map_nil]
+          exact List.Sublist.append hsub (List.Sublist.refl _)
+        · intro a hm
+          rcases List.mem_append.1 hm with hm | hm
+          · exact hfrom a hm
+          · simp only [List.mem_singleton] at hm
+            exact ⟨r, by rw [he, hcr]; simp [optL], hm⟩
         · exact hc
       · cases hs
-  | stop => simp only [step] at hs; cases hs; exact ⟨hr, he, ha, hc, hcur⟩
+  | stop => simp only [step] at hs; cases hs; exact ⟨hr, he, ha, hsub, hfrom, hc, hcur⟩
 
 theorem next_inv (v : Svc) (st : Step) (h : SInv v) : SInv (next v st) := by
   unfold next
